@@ -275,6 +275,22 @@ def r5_sibling_guards(rule, root=None):
             rule.ok("Interval::atan2: any box touching the branch cut (y.lower <= 0 <= y.upper, x.lower < 0) is [-pi, pi]", file=IVAL_RS, line=cut["ln"])
         else:
             rule.bad("atan2|cut", "Interval::atan2 returns the whole range under %s; it must do so exactly under %s: with a strict test a lower bound of -0.0 (from negating [a, 0]) falls into the upper-half quadrant cases although atan2(-0.0, x<0) = -pi" % (sorted(conj), sorted(want)), A.where(fn, cut))
+        # nothing but NaN is answered before the cut was tested: an interval result computed on a path where the cut
+        # test has not been refused (a "single point" fast path, say) meets y = [-0.0, +0.0], whose two ends are
+        # equal as numbers and a whole turn apart as angles
+        cut_ln = cut["ln"] if cut is not None else None
+        for site in list(A.find(view, "Call")) + list(A.find(view, "MethodCall")):
+            is_new = site.get("k") == "Call" and (A.path_segs(site["func"]) or [])[-2:] == ["Interval", "new"]
+            is_into = site.get("k") == "MethodCall" and site["method"] == "into" and "atan2" in A.unparse(site["recv"])
+            if not (is_new or is_into) or site is cut:
+                continue
+            cs_ = [A.norm_cond(c_) for c_ in (A.enclosing_conds(view, site) or [])]
+            refused = any(c_.startswith("!") and ".lower<0.0" in c_ and "<=0.0" in c_ and ">=0.0" in c_ for c_ in cs_)
+            if not refused:
+                rule.bad("atan2|before-cut", "Interval::atan2 answers `%s` under %s, on a path where the branch-cut test has not been refused: the box y = [-0.0, +0.0], x < 0 reaches it and its true range is [-pi, pi]" % (A.unparse(site)[:60], cs_[-1:] or ["no condition"]), A.where(fn, site))
+                break
+        else:
+            rule.ok("Interval::atan2: every interval it builds lies behind the refused branch-cut test", file=IVAL_RS, line=fn["ln"])
     fn = A.find_fn(IVAL_RS, "mix", self_ty="Interval", root=root)
     ifs = [i for i in A.find(fn["body"], "If") if "has_nan" in A.unparse(i["cond"])]
     if not ifs:
